@@ -17,7 +17,7 @@ EXPLANATION = ('Path rule over the CFG of all three instantiations of process_ut
                'dominance of the NUL test over the iterator advance and over appendSlot, non-reachability of any '
                'decode from the zero edge, dataflow of the consumed-character counter into m_numCharinfo/m_numGlyphs. '
                'A path property of one small loop: it holds for every text, encoding and nChars.')
-FLOORS = {'NULSTOP': 3, 'COUNTSYNC': 4, 'ONEDECODE': 3}
+FLOORS = {'NULSTOP': 3, 'COUNTSYNC': 4, 'ONEDECODE': 3, 'ADVANCEBOUND': 3, 'CONTGUARD': 3}
 
 
 def find_decodes(fn):
@@ -232,3 +232,6 @@ def run(run):
     fx = run.facts('Q0')
     nulstop(run, fx)
     countsync(run, fx)
+    from . import c11
+    c11.advancebound(run, fx)      # the iterator must not step over a unit it did not vet (the terminating NUL)
+    c11.contguard(run, fx)
